@@ -97,6 +97,34 @@ where
             }
         }
     }
+    // the image behind the clipped adapter (the adapter crops the colour stream with nth() and row skips): clip areas
+    // that remove rows at the top and columns at the left, the right column and bottom row, three rows at the top,
+    // everything but one pixel; the parent receives exactly the image's pixels inside the clip area
+    if aw > 0 && ah > 0 {
+        use embedded_graphics::draw_target::DrawTargetExt;
+        use embedded_graphics::primitives::Rectangle;
+        let clips = [
+            Rectangle::new(Point::new(tl.0 + 1, tl.1 + 2), Size::new(aw, ah)),
+            Rectangle::new(Point::new(tl.0 - 1, tl.1 - 1), Size::new(aw, ah)),
+            Rectangle::new(Point::new(tl.0, tl.1 + 3), Size::new(aw + 2, ah)),
+            Rectangle::new(Point::new(tl.0 + 2, tl.1), Size::new(aw, ah + 1)),
+            Rectangle::new(Point::new(tl.0 + aw as i32 - 1, tl.1 + ah as i32 - 1), Size::new(1, 1)),
+        ];
+        for clip in clips {
+            let want: Map<u32> = exp.iter().filter(|(k, _)| clip.contains(Point::new(k.0, k.1))).map(|(k, v)| (*k, *v)).collect();
+            let mut pn = RecN::<I::Color>::new();
+            image.draw(&mut pn.clipped(&clip)).unwrap();
+            let mut pd = RecD::<I::Color>::new();
+            image.draw(&mut pd.clipped(&clip)).unwrap();
+            obs.class_if(!want.is_empty() && want.len() < exp.len(), "image-partly-inside-a-clipped-target");
+            for (name, m) in [("native parent", &pn.map), ("draw_iter-only parent", &pd.map)] {
+                let got: Map<u32> = m.iter().map(|(k, c)| (*k, raw_of(*c))).collect();
+                if got != want {
+                    obs.fail("clipped-target-receives-the-image-inside-the-clip-area", format!("clip area {:?}, {name}: {}", rt(&clip), map_diff(&got, &want)));
+                }
+            }
+        }
+    }
     for (area_n, got) in &dr.drained {
         obs.class("stream-drained");
         if area_n != got {
@@ -257,6 +285,16 @@ fn wide_cases(part: &str) -> Vec<ImgCase> {
             }
         }
     }
+    // 300 x 300 pixels: pixel indices beyond 65535
+    for bpp in if part == "sub-byte" { vec![1u8] } else { vec![8u8, 16] } {
+        for be in [false, true] {
+            let (w, h) = (300u32, 300u32);
+            let data = pattern(4, required_len(w, h, bpp));
+            v.push(ImgCase { bpp, be, w, h, data: data.clone(), sub: None, sub2: None, at: (-3, -2), center: false });
+            v.push(ImgCase { bpp, be, w, h, data: data.clone(), sub: Some((280, 290, 15, 8)), sub2: None, at: (1, 1), center: false });
+            v.push(ImgCase { bpp, be, w, h, data, sub: Some((0, 219, 300, 81)), sub2: Some((298, 79, 2, 2)), at: (0, 0), center: true });
+        }
+    }
     // portrait images 300 rows high
     let bpps: Vec<u8> = match part {
         "sub-byte" => vec![1, 2, 4],
@@ -288,7 +326,7 @@ fn run_part(run: &mut Run) {
                 || cases(tier, &part),
                 check_img,
             );
-            run.sweep_vec("wide-images", "raw widths x 2 data orders x images 255, 256, 257, 264, 300, 320 and 513 px wide and 3 rows high: whole, 7 sub-areas (narrow ones near both ends, overlapping the edges) and 2 nested sub-areas; images 1 and 3 px wide and 300 rows high with 4 sub-areas near the bottom", || wide_cases(&part), check_img);
+            run.sweep_vec("wide-images", "raw widths x 2 data orders x images 255, 256, 257, 264, 300, 320 and 513 px wide and 3 rows high: whole, 7 sub-areas (narrow ones near both ends, overlapping the edges) and 2 nested sub-areas; images 1 and 3 px wide and 300 rows high with 4 sub-areas near the bottom; 300 x 300 images (pixel indices beyond 65535)", || wide_cases(&part), check_img);
             if part == "bytes" {
                 run.sweep_vec(
                     "new",
@@ -324,7 +362,7 @@ fn main() {
         assumptions: &["the layout model is written from the documentation (rows padded to whole bytes; LittleEndianMsb0 / BigEndianLsb0), not from the library's bit_position", "bounded to the listed sizes and contents"],
         parts: |_| vec![PartSpec::new("sub-byte", "verif"), PartSpec::new("bytes", "verif")],
         run_part,
-        required_classes: |_| vec!["image", "sub-image", "sub-sub-image", "row-padding", "big-endian-lsb0", "with_center", "sub-area-overlaps-edge", "sub-area-above-last-row", "sub-area-narrower", "sub-area-empty", "stream-drained", "target-window-far-from-origin", "new-accepts", "new-rejects"],
+        required_classes: |_| vec!["image", "sub-image", "sub-sub-image", "row-padding", "big-endian-lsb0", "with_center", "sub-area-overlaps-edge", "sub-area-above-last-row", "sub-area-narrower", "sub-area-empty", "stream-drained", "target-window-far-from-origin", "image-partly-inside-a-clipped-target", "new-accepts", "new-rejects"],
         crash_is_verdict: false,
     })
 }
